@@ -13,6 +13,7 @@ import (
 	"context"
 	"errors"
 	"fmt"
+	"io"
 	"math/rand"
 	"os"
 	"reflect"
@@ -34,6 +35,21 @@ var errFnOnce = errors.New("callback-error-once")
 
 // errors that WRAP the end sentinel are errors, not the end
 var errPermW = fmt.Errorf("permanent failure while reading: %w", stream.End)
+
+// permErrs: the error value of each permanent-failure fault kind. Besides an error of the harness's own
+// and one that wraps the end sentinel: values that a combinator might mistake for an end of input or
+// for a cancellation of its own making.
+var permErrs = map[string]error{"perm": errPerm, "permW": errPermW, "permEOF": io.EOF, "permDL": context.DeadlineExceeded}
+
+func isPermErr(err error) bool {
+	for _, e := range permErrs {
+		if err == e {
+			return true
+		}
+	}
+	return false
+}
+
 var errTransientW = fmt.Errorf("transient failure while reading: %w", stream.End)
 
 // sstream is the type-erased view of a stream under test.
@@ -160,6 +176,24 @@ func rigs() []rig {
 		// the consumer looks at the first item of every run only; the outer Next skips the rest itself
 		{name: "Runs(first of each)", nsrc: 1, build: func(s []*sx.Src, c *cb) sstream {
 			return erase[int](runsFirst{stream.Runs[int](s[0], func(a, b int) bool { return a == b })})
+		}},
+		// many inner streams (an implementation that batches or caps its bookkeeping would show here);
+		// used by the long-input pass only (nsrc > 2)
+		{name: "Flatten(12 inner)", nsrc: 12, build: func(s []*sx.Src, c *cb) sstream {
+			var items []stream.Stream[int]
+			for _, x := range s {
+				items = append(items, x)
+			}
+			outer := &sx.SrcOf[stream.Stream[int]]{Name: "outer", Items: items}
+			outers.Store(s[0], outer)
+			return erase(stream.Flatten[int](outer))
+		}},
+		{name: "Join(12 streams)", nsrc: 12, build: func(s []*sx.Src, c *cb) sstream {
+			var items []stream.Stream[int]
+			for _, x := range s {
+				items = append(items, x)
+			}
+			return erase(stream.Join[int](items...))
 		}},
 		// reducers
 		{name: "Collect", nsrc: 1, reduce: func(ctx context.Context, s []*sx.Src, c *cb) (string, error) {
@@ -358,11 +392,9 @@ func mkSrcs(inputs [][]int, faults []fault) []*sx.Src {
 			if f.Src != i {
 				continue
 			}
-			if f.Kind == "perm" || f.Kind == "permW" {
+			if e, ok := permErrs[f.Kind]; ok {
 				perm = f.Pos
-				if f.Kind == "permW" {
-					permErr = errPermW
-				}
+				permErr = e
 			}
 			if f.Kind == "transient" {
 				trans[f.Pos]++
@@ -427,6 +459,10 @@ func run(r rig, p plan) outcome {
 		return o
 	}
 	s := r.build(srcs, c)
+	callLimit := 64
+	for _, in := range p.Inputs {
+		callLimit += 4 * len(in)
+	}
 	for {
 		if p.Abandon >= 0 && len(o.outs) >= p.Abandon {
 			break
@@ -442,7 +478,7 @@ func run(r rig, p plan) outcome {
 		o.calls++
 		if err == nil {
 			o.outs = append(o.outs, v)
-		} else if err == stream.End || err == errPerm || err == errPermW || err == errFn {
+		} else if err == stream.End || isPermErr(err) || err == errFn {
 			o.end = err
 			break
 		} else if err == context.Canceled || err == errTransient || err == errTransientW || err == errFnOnce {
@@ -452,7 +488,7 @@ func run(r rig, p plan) outcome {
 			o.end = err
 			break
 		}
-		if o.calls > 64 {
+		if o.calls > callLimit {
 			o.hang = true
 			break
 		}
@@ -472,7 +508,7 @@ func truncate(inputs [][]int, faults []fault) [][]int {
 		out[i] = inputs[i]
 	}
 	for _, f := range faults {
-		if f.Kind == "perm" || f.Kind == "permW" {
+		if _, ok := permErrs[f.Kind]; ok {
 			out[f.Src] = inputs[f.Src][:f.Pos]
 			// sources after a permanently failing one are never reached by Join/Flatten
 			for j := f.Src + 1; j < len(out); j++ {
@@ -506,11 +542,8 @@ func check(prop string, r rig, p plan) *viol {
 	terminal := false
 	var want error
 	for _, f := range p.Faults {
-		if f.Kind == "perm" {
-			terminal, want = true, errPerm
-		}
-		if f.Kind == "permW" {
-			terminal, want = true, errPermW
+		if e, ok := permErrs[f.Kind]; ok {
+			terminal, want = true, e
 		}
 		if f.Kind == "cb" {
 			terminal, want = true, errFn
@@ -569,15 +602,15 @@ func check(prop string, r rig, p plan) *viol {
 			}
 			return &viol{"c08/reducer-swallowed-error/" + r.name, fmt.Sprintf("%s: returned (%s,nil) although a fault was injected", desc, o.result)}
 		}
-		if o.end != errPerm && o.end != errPermW && o.end != errTransient && o.end != errTransientW && o.end != errFn && o.end != context.Canceled {
+		if !isPermErr(o.end) && o.end != errTransient && o.end != errTransientW && o.end != errFn && o.end != context.Canceled {
 			return &viol{"c08/reducer-foreign-error/" + r.name, fmt.Sprintf("%s: returned error %v", desc, o.end)}
 		}
 		return nil
 	}
 	if terminal {
-		reached := ((want == errPerm || want == errPermW) && o.permHit > 0) || (want == errFn && o.cbFailed)
+		reached := (isPermErr(want) && o.permHit > 0) || (want == errFn && o.cbFailed)
 		var bound []string
-		if want == errPerm || want == errPermW {
+		if isPermErr(want) {
 			bound = run(r, plan{Rig: p.Rig, Inputs: truncate(p.Inputs, p.Faults), Abandon: -1}).outs
 		} else {
 			bound = ref.outs
@@ -634,7 +667,7 @@ func faultPlans(r rig, ins [][]int, two bool) [][]fault {
 			break
 		}
 		for p := 0; p <= len(in); p++ {
-			singles = append(singles, fault{"perm", si, p}, fault{"transient", si, p}, fault{"permW", si, p}, fault{"transientW", si, p})
+			singles = append(singles, fault{"perm", si, p}, fault{"transient", si, p}, fault{"permW", si, p}, fault{"transientW", si, p}, fault{"permEOF", si, p}, fault{"permDL", si, p})
 		}
 	}
 	total := 0
@@ -662,8 +695,8 @@ func faultPlans(r rig, ins [][]int, two bool) [][]fault {
 	if two {
 		for i, a := range singles {
 			for _, b := range singles[i:] {
-				term := func(k string) bool { return k == "perm" || k == "permW" || k == "cb" }
-				if a.Kind == "transientW" || b.Kind == "transientW" || a.Kind == "permW" {
+				term := func(k string) bool { _, ok := permErrs[k]; return ok || k == "cb" }
+				if a.Kind == "transientW" || b.Kind == "transientW" || a.Kind == "permW" || a.Kind == "permEOF" || a.Kind == "permDL" || b.Kind == "permEOF" || b.Kind == "permDL" {
 					continue // the wrapped-end variants are explored as single faults and as the second of a pair only
 				}
 				if term(a.Kind) && term(b.Kind) || (a.Kind == "cbOnce" && b.Kind == "cbOnce") || (a.Kind == "cb" && b.Kind == "cbOnce") || (a.Kind == "cbOnce" && b.Kind == "cb") {
@@ -674,6 +707,112 @@ func faultPlans(r rig, ins [][]int, two bool) [][]fault {
 		}
 	}
 	return plans
+}
+
+// longPass: inputs far longer than the exhaustive part reaches (runs of 70 equal items, 80 alternating
+// ones) under every single fault at every position, and rigs with 12 inner streams. Linear in the input
+// length per plan.
+func longPass(prop string, rs []rig, runv *vx.Run) int64 {
+	byName := map[string]rig{}
+	for _, r := range rs {
+		byName[r.name] = r
+	}
+	var l1, l2 []int
+	for i := 0; i < 70; i++ {
+		l1 = append(l1, 1)
+	}
+	l1 = append(l1, 2, 3, 2, 2, 1) // (no item after the long run is repeated at once: losing one must show)
+	for i := 0; i < 40; i++ {
+		l2 = append(l2, 1, 2)
+	}
+	type job struct {
+		r rig
+		p plan
+	}
+	var jobs []job
+	for _, name := range []string{"Compact", "CompactFunc", "Filter", "While", "Map", "Chunk(3)", "Runs(first of each)", "Runs(collect each)", "Flatten.Runs", "FlattenSlices.Chunk(2)", "WithPeek", "First(9)"} {
+		r, ok := byName[name]
+		if !ok {
+			continue
+		}
+		for _, in := range [][]int{l1, l2} {
+			n := len(in)
+			var fs [][]fault
+			fs = append(fs, nil)
+			for pos := 0; pos <= n; pos++ {
+				fs = append(fs, []fault{{"transient", 0, pos}})
+				if pos <= 2 || pos >= n-2 || pos%16 <= 1 {
+					fs = append(fs, []fault{{"perm", 0, pos}}, []fault{{"permEOF", 0, pos}})
+				}
+			}
+			for call := 0; call <= 2; call++ {
+				for after := 0; after <= 2*n+4; after++ { // a combinator may consult the context itself between pulls
+					fs = append(fs, []fault{{"ctxMid", after, call}})
+				}
+			}
+			if r.hasCB {
+				for q := 0; q < n; q += 7 {
+					fs = append(fs, []fault{{"cb", 0, q}})
+				}
+			}
+			for _, f := range fs {
+				abandons := []int{-1}
+				if prop == "C09" {
+					abandons = []int{-1, 0, 1, 2}
+				}
+				for _, ab := range abandons {
+					jobs = append(jobs, job{r, plan{Rig: r.name, Inputs: [][]int{in}, Faults: f, Abandon: ab}})
+				}
+			}
+		}
+	}
+	for _, name := range []string{"Flatten(12 inner)", "Join(12 streams)"} {
+		r, ok := byName[name]
+		if !ok {
+			continue
+		}
+		var sets [][][]int
+		var singles, mixed, empties [][]int
+		for i := 0; i < 12; i++ {
+			singles = append(singles, []int{i + 1})
+			empties = append(empties, nil)
+			if i%3 == 1 {
+				mixed = append(mixed, nil)
+			} else {
+				mixed = append(mixed, []int{i + 1, i + 1})
+			}
+		}
+		sets = append(sets, singles, mixed, empties)
+		for _, set := range sets {
+			var fs [][]fault
+			fs = append(fs, nil)
+			for si := 0; si < 12; si++ {
+				for pos := 0; pos <= len(set[si]); pos++ {
+					fs = append(fs, []fault{{"perm", si, pos}}, []fault{{"transient", si, pos}})
+				}
+			}
+			for call := 0; call <= 13; call++ {
+				fs = append(fs, []fault{{"ctx", 0, call}})
+			}
+			for _, f := range fs {
+				abandons := []int{-1}
+				if prop == "C09" {
+					for k := 0; k <= 13; k++ {
+						abandons = append(abandons, k)
+					}
+				}
+				for _, ab := range abandons {
+					jobs = append(jobs, job{r, plan{Rig: r.name, Inputs: set, Faults: f, Abandon: ab}})
+				}
+			}
+		}
+	}
+	vx.Parallel(len(jobs), func(i int) {
+		if v := check(prop, jobs[i].r, jobs[i].p); v != nil {
+			runv.Violate(vx.Violation{Signature: v.sig, Detail: v.detail, Replay: jobs[i].p})
+		}
+	})
+	return int64(len(jobs))
 }
 
 func main() {
@@ -739,6 +878,9 @@ func main() {
 	vx.Parallel(len(rs), func(ri int) {
 		r := rs[ri]
 		var local int64
+		if r.nsrc > 2 {
+			return // long-input pass only
+		}
 		pipeline := len(r.name) > 0 && containsRune(r.name, '∘')
 		for _, in := range ins {
 			var inputSets [][][]int
@@ -784,6 +926,9 @@ func main() {
 		mu.Unlock()
 	})
 	_ = nontrivial
+	longCases := longPass(prop, rs, runv)
+	cases += longCases
+	runv.Set("long_input_cases", longCases)
 	runv.AddCounts(cases, cases, cases)
 	runv.Set("rigs", len(rs))
 	runv.Set("cases_per_rig_sample", map[string]int64{"Chunk(2)": perRig["Chunk(2)"], "Flatten(a,b)": perRig["Flatten(a,b)"], "While∘Map": perRig["While∘Map"]})
